@@ -176,6 +176,9 @@ func (F *Flow) backLoad(u *ssa.UnOp) {
 	root, path := addrPath(addr)
 	switch r := root.(type) {
 	case *ssa.Alloc:
+		if F.Visit != nil && !F.Visit(r) {
+			return
+		}
 		F.backCell(r, path, r.Parent())
 		return
 	case *ssa.Global:
